@@ -84,8 +84,8 @@ def pub(s, vals, how='b2b', fails=()):
     return {'a': 'Publish', 's': s, 'vals': vals, 'fails': list(fails), 'how': how}
 
 
-def sub(s, frm=0):
-    return {'a': 'Subscribe', 's': s, 'from': frm}
+def sub(s, frm=0, rev=False):
+    return {'a': 'Subscribe', 's': s, 'from': frm, 'rev': rev}
 
 
 def scenarios(seed):
@@ -102,7 +102,7 @@ def scenarios(seed):
         pub('enc', [V(9, 'short'), V(10, 'long')], 'gap'),
         pub('plain', [V(11, 'long'), V(12, 'empty'), V(13, 'short')], 'b2b'),
         pub('enc', [V(14, 'long')], 'api'),
-        sub('enc'), sub('plain'), sub('enc', 5)]))
+        sub('enc'), sub('plain'), sub('enc', 5), sub('enc', 10, True), sub('plain', 2, True), sub('enc', 4, True)]))
     # 2. a seal failure at each site
     S.append(({'wrap': True}, [
         pub('enc', [V(1, 'long'), V(2, 'long'), V(3, 'long')], 'b2b', [1]),
@@ -117,6 +117,7 @@ def scenarios(seed):
         pub('enc', [V(1, 'long'), V(2, 'short')], 'b2b'), pub('plain', [V(3, 'long')], 'api'),
         {'a': 'SetEnv', 'k': 'k2'}, pub('enc', [V(4, 'long')], 'api'), sub('enc'),
         {'a': 'Restart'}, sub('enc'), sub('plain'), pub('enc', [V(5, 'long'), V(6, 'empty')], 'gap'), sub('enc', 3), sub('enc', 2),
+        sub('enc', 4, True), sub('enc', 2, True),
         pub('plain', [V(7, 'short')], 'api'), sub('plain')]))
     # 4. the same through pause / resume; a paused stream over a restart
     S.append(({'wrap': True}, [
